@@ -226,6 +226,7 @@ package anytype
 //@   requires invL(ego)
 //@   requires plain-arg: isVList(another) && okVal(another) && plain(vlref(another))
 //@   let a := list(vlref(another))
+//@   requires fits-in-memory: len(ego.val) + len(a.val) <= MaxInt
 //@   assigns  nothing
 //@   panics_iff false
 //@   plet r := list(vlref(result))
